@@ -17,6 +17,7 @@ import (
 const (
 	pkgBastion     = "github.com/transparency-dev/witness/internal/feeder/bastion"
 	pkgPixel       = "github.com/transparency-dev/witness/internal/feeder/pixelbt"
+	pkgRekor       = "github.com/transparency-dev/witness/internal/feeder/rekor"
 	pkgClient      = "github.com/transparency-dev/witness/internal/client"
 	pkgOmni        = "github.com/transparency-dev/witness/omniwitness"
 	pkgHTTP        = "github.com/transparency-dev/witness/internal/http"
@@ -114,12 +115,23 @@ func init() {
 	checks["C03"].Runs = append(checks["C03"].Runs,
 		runSpec{Harness: pkgWitness + ".VerifFaults", Quick: p("logs", 1, "signers", 1, "maxproof", 1, "store", 0), Thorough: p("logs", 2, "signers", 2, "maxproof", 2, "store", 0), Covers: fltCovers},
 		runSpec{Harness: pkgWitness + ".VerifFaults", Quick: p("logs", 1, "signers", 1, "maxproof", 1, "store", 1), Thorough: p("logs", 2, "signers", 2, "maxproof", 2, "store", 1), Covers: fltCovers})
+	// C01 across a storage fault: a cosignature handed out in a step with failing storage operations
+	// binds the next step (H-FLT with C01's monitors)
+	checks["C01"].Runs = append(checks["C01"].Runs,
+		runSpec{Harness: pkgWitness + ".VerifFaults", Quick: p("logs", 1, "signers", 1, "maxproof", 1, "store", 1), Thorough: p("logs", 2, "signers", 2, "maxproof", 2, "store", 1), Covers: []string{"flt/accepted-no-fault", "flt/refused-because-of-a-fault", "flt/second-update-accepted"}},
+		runSpec{Harness: pkgWitness + ".VerifFaults", Quick: p("logs", 1, "signers", 1, "maxproof", 1, "store", 0), Thorough: p("logs", 2, "signers", 2, "maxproof", 2, "store", 0), Covers: []string{"flt/accepted-no-fault", "flt/refused-because-of-a-fault", "flt/second-update-accepted"}})
+	// C03's storage-conflict refusal (only reachable with overlapping updates): the loser of two
+	// overlapping updates must leave the winner's stored bytes alone
+	checks["C03"].Runs = append(checks["C03"].Runs,
+		runSpec{Harness: pkgWitness + ".VerifConcurrent", Quick: p("threads", 2, "logs", 1, "signers", 1, "maxproof", 0, "store", 0), Thorough: p("threads", 2, "logs", 2, "signers", 1, "maxproof", 1, "store", 0), Covers: []string{"conc/storage-conflict", "conc/some-accepted"}})
 	reg(&checkSpec{ID: "C07", Assumptions: append([]string{"A-db: database/sql + SQLite contract model (harness/internal/verifrt/sqlmodel.go): commit is atomic and durable, failure applies nothing"}, commonAssumptions...), Runs: []runSpec{
 		{Harness: pkgWitness + ".VerifFaults", Quick: p("logs", 1, "signers", 1, "maxproof", 1, "store", 0), Thorough: p("logs", 2, "signers", 2, "maxproof", 2, "store", 0), Covers: []string{"flt/accepted-no-fault", "flt/refused-because-of-a-fault", "flt/read-error", "flt/second-update-accepted"}},
 		{Harness: pkgWitness + ".VerifFaults", Quick: p("logs", 1, "signers", 1, "maxproof", 1, "store", 1), Thorough: p("logs", 2, "signers", 2, "maxproof", 2, "store", 1), Covers: []string{"flt/accepted-no-fault", "flt/refused-because-of-a-fault", "flt/read-error", "flt/second-update-accepted"}},
 	}})
 	reg(&checkSpec{ID: "C06", Assumptions: append([]string{"A-db: database/sql + SQLite contract model: commit is atomic and durable; an uncommitted transaction leaves no trace after a crash; real SIGKILL / file system / cgo driver are outside the claim"}, commonAssumptions...), Runs: []runSpec{
 		{Harness: pkgWitness + ".VerifCrash", Quick: p("logs", 2, "signers", 1, "maxproof", 1, "boundaries", 12), Thorough: p("logs", 3, "signers", 2, "maxproof", 2, "boundaries", 14), Covers: []string{"crash/killed", "crash/killed-after-signing", "crash/completed", "crash/killed-after-commit", "crash/killed-before-commit"}},
+		// driver faults before the kill (a failed COMMIT, then the crash)
+		{Harness: pkgWitness + ".VerifCrash", Quick: p("logs", 1, "signers", 1, "maxproof", 0, "boundaries", 12, "dbfaults", 1), Thorough: p("logs", 2, "signers", 1, "maxproof", 1, "boundaries", 14, "dbfaults", 1), Covers: []string{"crash/killed", "crash/completed"}},
 	}})
 	concCovers := []string{"conc/some-accepted", "conc/all-accepted-same-log"}
 	reg(&checkSpec{ID: "C05", Assumptions: append([]string{"yield points: every sync.(RW)Mutex operation and every database/sql operation; code between yield points is atomic (lock discipline)", "A-db with a single pooled connection (cmd/omniwitness sets MaxOpenConns(1))"}, commonAssumptions...), Runs: []runSpec{
@@ -158,8 +170,10 @@ func init() {
 		{Harness: pkgRest + ".VerifDistribute", Domain: sym.DomString, Solver: sym.CVC5, Quick: p("logs", 2, "io_faults", 1), Thorough: p("logs", 3, "io_faults", 1), Covers: []string{"dist/pushed", "dist/all-succeeded", "dist/partial-failure"}},
 	}})
 	reg(&checkSpec{ID: "C16", Assumptions: append([]string{"gorilla/mux route matching is outside the claim (mux.Vars returns the symbolic id)", "log-list order: the stores are iterated in insertion order by the engine; JSON encoding of a string list is an injective constructor"}, commonAssumptions...), Runs: []runSpec{
-		{Harness: pkgHTTP + ".VerifReadAPI", Quick: p("logs", 2, "signers", 1, "maxproof", 1, "store", 0), Thorough: p("logs", 3, "signers", 2, "maxproof", 2, "store", 0), Covers: []string{"http/found", "http/unknown-id", "http/known-id-nothing-stored", "http/first-accept-adds-entry", "http/refused-first-submission"}},
-		{Harness: pkgHTTP + ".VerifReadAPI", Quick: p("logs", 2, "signers", 1, "maxproof", 1, "store", 1), Thorough: p("logs", 3, "signers", 2, "maxproof", 2, "store", 1), Covers: []string{"http/found", "http/unknown-id", "http/known-id-nothing-stored", "http/first-accept-adds-entry", "http/refused-first-submission"}},
+		{Harness: pkgHTTP + ".VerifReadAPI", Quick: p("logs", 2, "signers", 1, "maxproof", 1, "steps", 1, "store", 0), Thorough: p("logs", 3, "signers", 2, "maxproof", 2, "steps", 1, "store", 0), Covers: []string{"http/found", "http/unknown-id", "http/known-id-nothing-stored", "http/first-accept-adds-entry", "http/refused-first-submission"}},
+		{Harness: pkgHTTP + ".VerifReadAPI", Quick: p("logs", 1, "signers", 1, "maxproof", 1, "steps", 2, "store", 0), Thorough: p("logs", 2, "signers", 1, "maxproof", 1, "steps", 2, "store", 0), Covers: []string{"http/found", "http/first-accept-adds-entry", "http/refused-first-submission", "http/second-update-accepted"}},
+		{Harness: pkgHTTP + ".VerifReadAPI", Quick: p("logs", 2, "signers", 1, "maxproof", 1, "steps", 1, "store", 1), Thorough: p("logs", 3, "signers", 2, "maxproof", 2, "steps", 1, "store", 1), Covers: []string{"http/found", "http/unknown-id", "http/known-id-nothing-stored", "http/first-accept-adds-entry", "http/refused-first-submission"}},
+		{Harness: pkgHTTP + ".VerifReadAPI", Quick: p("logs", 1, "signers", 1, "maxproof", 1, "steps", 2, "store", 1), Thorough: p("logs", 2, "signers", 1, "maxproof", 1, "steps", 2, "store", 1), Covers: []string{"http/found", "http/first-accept-adds-entry", "http/refused-first-submission", "http/second-update-accepted"}},
 		{Harness: pkgClientHTTP + ".VerifClientGet", Domain: sym.DomString, Solver: sym.CVC5, Quick: p("io_faults", 1), Thorough: p("io_faults", 1), Covers: []string{"client/200", "client/404", "client/other"}},
 	}})
 	bastCovers := []string{"bast/429", "bast/400-malformed", "bast/404", "bast/403", "bast/400-oldsize", "bast/409-stale", "bast/409-root", "bast/422", "bast/200"}
@@ -167,9 +181,10 @@ func init() {
 		{Harness: pkgOmni + ".VerifBastion", Quick: p("logs", 2, "maxproof", 1, "store", 0), Thorough: p("logs", 3, "maxproof", 2, "store", 0), Covers: bastCovers},
 		{Harness: pkgOmni + ".VerifBastion", Quick: p("logs", 1, "maxproof", 1, "store", 1), Thorough: p("logs", 2, "maxproof", 2, "store", 1), Covers: bastCovers},
 	}})
-	reg(&checkSpec{ID: "C19", Assumptions: append([]string{"bounded absence of run-time panics and of loops beyond the unwinding bound in the repository's own code and in x/mod tlog.ProveTree; panics inside contract-modelled library calls, socket timeouts, HTTP/2 framing and JSON decoding are outside the claim", "hostile checkpoint sizes: {0, 2^62-1, 2^62, 2^62+1, 2^63-1, 2^63, 2^64-1, any value <= 9}; root hash of arbitrary length"}, commonAssumptions...), Runs: []runSpec{
+	reg(&checkSpec{ID: "C19", Assumptions: append([]string{"bounded absence of run-time panics and of loops beyond the unwinding bound in the repository's own code and in x/mod tlog.ProveTree; panics inside contract-modelled library calls, socket timeouts and HTTP/2 framing are outside the claim; JSON decoding is the contract 'an error, or an arbitrary value of the target type (lists of <= 2/3 elements)'", "hostile checkpoint sizes: {0, 2^62-1, 2^62, 2^62+1, 2^63-1, 2^63, 2^64-1, any value <= 9}; root hash of arbitrary length"}, commonAssumptions...), Runs: []runSpec{
 		{Harness: pkgSumdb + ".VerifFeedHostile", Quick: p("attempts", 1), Thorough: p("attempts", 2), Unwind: 140, Covers: []string{"hostile/cycle-succeeds", "hostile/cycle-fails", "hostile/proof-built"}},
 		{Harness: pkgPixel + ".VerifFeedHostile", Quick: p("attempts", 1), Thorough: p("attempts", 2), Unwind: 140, Covers: []string{"hostile/cycle-succeeds", "hostile/cycle-fails", "hostile/proof-built"}},
+		{Harness: pkgRekor + ".VerifFeedHostile", Quick: p("attempts", 1, "json_maxlist", 2), Thorough: p("attempts", 2, "json_maxlist", 3), Covers: []string{"rekor/cycle-succeeds", "rekor/cycle-fails", "rekor/proof-fetched"}},
 		{Harness: pkgPixel + ".VerifReadTiles", Domain: sym.DomString, Solver: sym.Z3, Covers: []string{"pixel/readtiles-ok"}},
 		{Harness: pkgClient + ".VerifDataToLeaves", Domain: sym.DomArray, Quick: p("maxlen", 6), Thorough: p("maxlen", 10), Covers: []string{"leaves/two"}},
 		{Harness: pkgBastion + ".VerifServeArbitraryBody", Domain: sym.DomString, Solver: sym.CVC5, Quick: p("k", 2, "io_faults", 1), Thorough: p("k", 3, "io_faults", 1), Unwind: 4, CutOnUnwind: true, Covers: []string{"serve/200", "serve/400", "serve/500"}},
